@@ -21,7 +21,7 @@ from .terms import _fnkey, FnKey
 
 MAX_STEPS = 400000
 MAX_STATES = 6000
-MAX_SECONDS = 40          # wall-clock budget of one abstract run (path conditions of deep terms make late forks slow): undecided beyond it, never a hang
+MAX_SECONDS = 15          # wall-clock budget of one abstract run (path conditions of deep terms make late forks slow): undecided beyond it, never a hang
 
 
 class T(tuple):
